@@ -24,6 +24,38 @@ theorem strLe_total : ∀ a b : Str, strLe a b = true ∨ strLe b a = true
       · simp only [h1, h2, if_false]
         exact strLe_total as bs
 
+theorem strLe_antisymm : ∀ a b : Str, strLe a b = true → strLe b a = true → a = b
+  | [], [], _, _ => rfl
+  | [], _ :: _, _, h => by simp [strLe] at h
+  | _ :: _, [], h, _ => by simp [strLe] at h
+  | a :: as, b :: bs, h1, h2 => by
+    simp only [strLe] at h1 h2
+    by_cases hab : a.toNat < b.toNat
+    · have : ¬ b.toNat < a.toNat := by omega
+      simp [hab, this] at h2
+    · by_cases hba : b.toNat < a.toNat
+      · simp [hab, hba] at h1
+      · simp only [hab, hba, if_false] at h1 h2
+        have hn : a.toNat = b.toNat := by omega
+        have hc : a = b := Char.toNat_inj.mp hn
+        rw [hc, strLe_antisymm as bs h1 h2]
+
+/-- `≤` is the complement of the converse `<` -/
+theorem strLe_eq_not_strLt (a b : Str) : strLe a b = !strLt b a := by
+  unfold strLt
+  cases h1 : strLe a b <;> cases h2 : strLe b a
+  · rcases strLe_total a b with h | h <;> simp_all
+  · simp only [Bool.true_and, Bool.not_not, Bool.false_eq]
+    -- b ≤ a and not a ≤ b: then b ≠ a
+    simp only [bne_iff_ne, ne_eq, Bool.not_eq_eq_eq_not, Bool.not_false]
+    by_cases hba : b = a
+    · subst hba; rw [strLe_refl] at h1; contradiction
+    · simp [hba]
+  · simp
+  · have := strLe_antisymm a b h1 h2
+    subst this
+    simp
+
 theorem strLe_trans : ∀ a b c : Str, strLe a b = true → strLe b c = true → strLe a c = true
   | [], _, _, _, _ => by simp [strLe]
   | _ :: _, [], _, h, _ => by simp [strLe] at h
